@@ -235,7 +235,32 @@ def run(ctx) -> int:
                 if v:
                     return {"config": cfg, "law": "item", "D": d, "marker": m, "spaces": sp, "wraps_already_applied": ops, **v}
         return None
-    direct = probe(rng, 1500 if q else 60000)
+    def fixed():
+        # fixed corpus, walked first: every leaf alone, followed by text, and inside a quote that ends on a blank
+        # quote line before more text - under every marker and every marker width
+        ds = []
+        for lf in LEAVES[:23]:
+            ds += [lf, lf + "after\n", lf + "\nafter\n", quote(lf) + ">\n\nmore\n"]
+        ds += [">     code\n>\n\nmore\n", "Foo\nbar\n===\n", "> Foo\n> bar\n> ---\nbaz\n", ">     code\n>\n>\n\n\nmore\n"]
+        for d in ds:
+            d = clean(d)
+            cfg, md = mds[0]
+            count["quote"] += 1
+            v = law_quote(md, d)
+            if v:
+                return {"config": cfg, "law": "quote", "D": d, "wraps_already_applied": [], **v}
+            if not d or d[0] in " \n":
+                continue
+            for m in MARKERS:
+                for sp in (1, 2, 3, 4):
+                    if HR_LINE.match(item(d, m, sp).split("\n", 1)[0]):
+                        continue
+                    count["item"] += 1
+                    v = law_item(md, d, m, sp)
+                    if v:
+                        return {"config": cfg, "law": "item", "D": d, "marker": m, "spaces": sp, "wraps_already_applied": [], **v}
+        return None
+    direct = fixed() or probe(rng, 1500 if q else 60000)
     conclude(rep, proofs, direct, "container-law", disagreements, kbad,
              lambda: probe(rng_for("C06", seed, "search"), 6000 if q else 100000),
              "whole pipeline on wrapped documents: model and implementation differ")
